@@ -67,6 +67,14 @@ def build_lexicon(lid, g):
         sp = g.get('split', 0)          # real nodes of this mask are stored in a second queried lexicon <lid>b
         ps = [mk.synset(f'{lid}-{i}', pos[i], _ili(lid, i)) for i in range(n) if g['real'] >> i & 1 and not sp >> i & 1]
         ps2 = [mk.synset(f'{lid}-{i}', pos[i], _ili(lid, i)) for i in range(n) if g['real'] >> i & 1 and sp >> i & 1]
+        # nodes of mask 'dup' are stored in *both* queried lexicons (two synsets, one ILI): the copy is node i + n
+        for i in range(n):
+            if g.get('dup', 0) >> i & 1:
+                ps2.append(mk.synset(f'{lid}-{i + n}', pos[i], _ili(lid, i)))
+        if g.get('dup'):
+            cp = lambda x: [x, x + n] if g['dup'] >> x & 1 else [x]       # noqa: E731
+            edges = [(a2, b2) for (a, b) in edges for a2 in cp(a) for b2 in cp(b)]
+            hypo = {(b, a) for (a, b) in edges}
         second = []
         if sp and g.get('splitext'):    # ... which is a lexicon extension of <lid>
             second = [mk.lexicon(lid + 'b', extends={'id': lid, 'version': '1'}, synsets=ps2)]
@@ -126,7 +134,7 @@ def _discover(ss, lid):
 def check_graph(lid, g, edges, hypo):
     """-> (violations, digest)"""
     V = []
-    n = g['n']
+    n = g['n'] * (2 if g.get('dup') else 1)
     ref = Ref(n, edges)
     expanded = 'real' in g
     if expanded:
@@ -136,7 +144,7 @@ def check_graph(lid, g, edges, hypo):
             w = wn.Wordnet()
         else:
             w = wn.Wordnet(lexicon=f'{lid}:1 {lid}b:1' if g.get('split') else f'{lid}:1', expand=f'{lid}q:1')
-        real = [i for i in range(n) if g['real'] >> i & 1]
+        real = [i for i in range(g['n']) if g['real'] >> i & 1] + [i + g['n'] for i in range(g['n']) if g.get('dup', 0) >> i & 1]
         ss = {i: w.synset(f'{lid}-{i}') for i in real}
         _discover(ss, lid)
     elif 'ext' in g:
@@ -303,21 +311,99 @@ def check_graph(lid, g, edges, hypo):
     return V, runner.digest(obs)
 
 
+def build_twin(lid, g):
+    """two versions of one lexicon id with identical synset ids and ILIs but different hypernym edges"""
+    n, prs = g['n'], pairs(g['n'], False)
+    out = []
+    for ver, h in (('1', g['h']), ('2', g['twin'])):
+        edges = edges_of(h, prs)
+        syns = [mk.synset(f'{lid}-{i}', 'n', _ili(lid, i),
+                          relations=[mk.rel(f'{lid}-{j}', 'hypernym') for (a, j) in edges if a == i]
+                          + [mk.rel(f'{lid}-{a}', 'hyponym') for (a, j) in edges if j == i]) for i in range(n)]
+        out.append((mk.lexicon(lid, ver, synsets=syns), edges))
+    return out
+
+
+def check_twin(lid, g, built):
+    """both versions in one Wordnet: every synset keeps the taxonomy of its own version, the Wordnet-level
+    functions see the disjoint union"""
+    V = []
+    n = g['n']
+
+    def bad(key, msg):
+        V.append((key, f'{msg} graph={g}', None, g))
+    w = wn.Wordnet(lexicon=f'{lid}:1 {lid}:2', expand='')
+    refs = {ver: Ref(n, edges) for ver, (_, edges) in zip(('1', '2'), built)}
+    by = {}
+    for ss in w.synsets():
+        by[(ss.lexicon().version, _name(ss, lid))] = ss
+    if len(by) != 2 * n:
+        bad('twin:synsets', f'{len(by)} synsets, expected {2 * n}')
+        return V, 'x'
+    obs = []
+    for (ver, i), ss in sorted(by.items()):
+        ref = refs[ver]
+        st, v = budget.call(ss.hypernym_paths, budget=4000)
+        got = sorted((tuple(_name(x, lid) for x in p) for p in v), key=str) if st == 'ok' else v
+        if got != sorted(ref.paths(i), key=str):
+            bad('twin:hypernym_paths', f'version {ver} node {i}: {got!r} expected {sorted(ref.paths(i), key=str)}')
+        elif any(x.lexicon().version != ver for p in v for x in p):
+            bad('twin:hypernym_paths:other-version', f'version {ver} node {i}: a path leaves the version')
+        st, v = budget.call(tx.max_depth, ss, budget=4000)
+        if st != 'ok' or v != ref.max_depth(i, False):
+            bad('twin:max_depth', f'version {ver} node {i}: {v!r} expected {ref.max_depth(i, False)}')
+        obs.append(got)
+    exp = max(ref.max_depth(i, False) for ref in refs.values() for i in range(n))
+    st, v = budget.call(tx.taxonomy_depth, w, 'n', budget=8000)
+    if st != 'ok' or v != exp:
+        bad('twin:taxonomy_depth', f'taxonomy_depth = {v!r} expected {exp} (the deeper of the two versions)')
+    st, v = budget.call(tx.roots, w, budget=8000)
+    exp_r = sorted((ver, i) for ver, ref in refs.items() for i in ref.roots())
+    got_r = sorted((x.lexicon().version, _name(x, lid)) for x in v) if st == 'ok' else v
+    if got_r != exp_r:
+        bad('twin:roots', f'roots = {got_r!r} expected {exp_r}')
+    for ver in ('1', '2'):
+        for a in range(n):
+            for b in range(n):
+                st, v = budget.call(tx.shortest_path, by[(ver, a)], by[(ver, b)], budget=8000)
+                ref = refs[ver]
+                shared = bool(ref.common(a, b, False))
+                if (st == 'ok') != shared:
+                    bad('twin:shortest_path:error-rule', f'version {ver} ({a},{b}): {v!r} shared={shared}')
+                elif st == 'ok' and len(v) != ref.sp_len(a, b, False):
+                    bad('twin:shortest_path:length', f'version {ver} ({a},{b}): {len(v)} expected {ref.sp_len(a, b, False)}')
+    return V, runner.digest(obs)
+
+
 def check(case):
     """case = {'graphs': [g, ...]} with g = {n, loops, h, inst?, pos?, hypo?}"""
     env.fresh_db()
     gs = case['graphs']
     built = []
     lexs = []
+    twins = []
     for k, g in enumerate(gs):
         lid = f'g{k}'
+        if 'twin' in g:
+            tw = build_twin(lid, g)
+            twins.append((lid, g, tw))
+            continue
         lex, edges, hypo = build_lexicon(lid, g)
         lexs.extend(lex)
         built.append((lid, g, edges, hypo))
+    for lid, g, tw in twins:           # the second version of each pair is added after the first
+        lexs.append(tw[0][0])
     env.add_resource(mk.resource([x for x in lexs if not x.get('extends')]))
     if any(x.get('extends') for x in lexs):
         env.add_resource(mk.resource([x for x in lexs if x.get('extends')]))
+    if twins:
+        env.add_resource(mk.resource([tw[1][0] for _, _, tw in twins]))
     V, digs, nt = [], [], 0
+    for lid, g, tw in twins:
+        v, d = check_twin(lid, g, tw)
+        V.extend(v)
+        nt += 1
+        digs.append(d)
     for lid, g, edges, hypo in built:
         v, d = check_graph(lid, g, edges, hypo)
         V.extend(v)
@@ -465,6 +551,17 @@ def space(tier, seed):
         gs.append({'n': 3, 'loops': True, 'h': h, 'real': 7, 'split': 6})
     for h in (dag_masks(4) if tier == 'quick' else range(1 << 12)):
         gs.append({'n': 4, 'loops': False, 'h': h, 'real': 3, 'split': 2})
+    # two versions of one lexicon id (same synset ids and ILIs, different edges) selected together: all ordered
+    # pairs of 3-node DAGs
+    d3 = dag_masks(3)
+    for h1 in d3:
+        for h2 in d3:
+            if h1 != h2:
+                gs.append({'n': 3, 'loops': False, 'h': h1, 'twin': h2})
+    # ... with node 0 stored in both queried lexicons (two local synsets for one ILI): a borrowed relation to
+    # that ILI has both as targets
+    for h in range(1 << 9):
+        gs.append({'n': 3, 'loops': True, 'h': h, 'real': 3, 'split': 2, 'dup': 1})
     # ... and with the second lexicon being an extension of the first, queried together or in default mode
     for h in range(1 << 9):
         gs.append({'n': 3, 'loops': True, 'h': h, 'real': 3, 'split': 2, 'splitext': True})
